@@ -114,3 +114,21 @@ func imlfn(ml, e0, e1, e2, e3 float64) (float64, error) {
 	}
 	return math.NaN(), fmt.Errorf("proj: imlfn: Latitude failed to converge after 15 iterations")
 }
+
+// defaultOrigin supplies the PROJ.4 defaults (zero) for the latitude and
+// longitude of origin and for the false origin when a definition leaves them
+// out. Without them the unset (NaN) fields propagate into every coordinate.
+func defaultOrigin(this *SR) {
+	if math.IsNaN(this.Lat0) {
+		this.Lat0 = 0
+	}
+	if math.IsNaN(this.Long0) {
+		this.Long0 = 0
+	}
+	if math.IsNaN(this.X0) {
+		this.X0 = 0
+	}
+	if math.IsNaN(this.Y0) {
+		this.Y0 = 0
+	}
+}
